@@ -21,6 +21,10 @@ pub struct Geometry {
     pub announce: String,
     /// pad string placed inside `info` (used to steer the info-hash bytes)
     pub pad: String,
+    /// lengths are only declared (no content exists, nobody can serve it): lets a plan name
+    /// totals of several GiB
+    #[serde(default)]
+    pub phantom: bool,
 }
 
 impl Geometry {
